@@ -526,6 +526,16 @@ impl<Front: SocketHandler> ConnectionH1<Front> {
                 }
             }
         }
+        // Only empty stores are queued (the empty chunk made of an HTTP/2 request's
+        // empty last DATA frame, written on its own after a partial write): there is
+        // nothing for the socket, and a zero-length write would come back as
+        // "0 bytes written", be taken for a would-block and clear the WRITABLE event
+        // of a perfectly writable edge-triggered socket for good.
+        if !io_slices.is_empty() && io_slices.iter().all(|s| s.is_empty()) {
+            drop(io_slices);
+            kawa.consume(0);
+            io_slices = Vec::new();
+        }
         let can_finalize_server_close = matches!(self.position, Position::Server)
             && kawa.is_terminated()
             && kawa.is_completed();
